@@ -243,6 +243,26 @@ pub fn run(ctx: &Ctx) {
     done &= par_chunks(ctx, *a, *b, 2048, |x, y, l| check_dates(ctx, &civ, &t, x, y, l));
   }
   ctx.subspace(&format!("(a) civil dates of {} years ({} dates): round trip and successor relation on every adjacent pair", years.len(), ndates), done, ndates);
+  // (a') quick only: the month-boundary day, the day before it and the 15th day of EVERY lunation of 0..9999, so that a
+  // lunar year anchored one lunation off anywhere in the range is seen without sweeping all 3.65 M dates
+  if ctx.quick() {
+    let mut ords: Vec<usize> = Vec::new();
+    for l in t.l.iter().filter(|l| l.ok) {
+      for o in [l.jd - JDN0, l.jd - JDN0 + 14] {
+        if o >= 1 && (o as usize) < civ.len() {
+          ords.push(o as usize);
+        }
+      }
+    }
+    ords.sort();
+    ords.dedup();
+    let done = par_chunks(ctx, 0, ords.len(), 256, |x, y, l| {
+      for k in x..y {
+        check_dates(ctx, &civ, &t, ords[k], ords[k] + 1, l);
+      }
+    });
+    ctx.subspace(&format!("(a') first and 15th civil day of every lunation of lunar years 0..9999 ({} dates): round trip, and successor relation with the day before", ords.len()), done, ords.len() as u64);
+  }
   // (b)+(c) lunations of lunar years in the tier's year set (plus year 0)
   let lyears: Vec<isize> = if ctx.quick() { years.clone() } else { (0..=9999).collect() };
   let mut idx: Vec<usize> = Vec::new();
